@@ -226,10 +226,15 @@ func (m *BaseUndoLogManager) FlushUndoLog(tranCtx *types.TransactionContext, con
 
 	parseContext := make(map[string]string, 0)
 	parseContext[serializerKey] = undo.UndoConfig.LogSerialization
-	parseContext[compressorTypeKey] = undo.UndoConfig.CompressConfig.Type
+	// the context names the compressor the rollback info really went through: getRollbackInfo trusts it
+	compressorType := m.compressorTypeInUse()
+	parseContext[compressorTypeKey] = string(compressorType)
 	undoLogContent := m.encodeUndoLogCtx(parseContext)
 	rollbackInfo, err := m.serializeBranchUndoLog(&branchUndoLog, parseContext[serializerKey])
 	if err != nil {
+		return err
+	}
+	if rollbackInfo, err = compressorType.GetCompressor().Compress(rollbackInfo); err != nil {
 		return err
 	}
 
@@ -386,7 +391,8 @@ func (m *BaseUndoLogManager) insertUndoLogWithGlobalFinished(ctx context.Context
 	// todo use config to replace
 	parseContext := make(map[string]string, 0)
 	parseContext[serializerKey] = undo.UndoConfig.LogSerialization
-	parseContext[compressorTypeKey] = undo.UndoConfig.CompressConfig.Type
+	compressorType := m.compressorTypeInUse()
+	parseContext[compressorTypeKey] = string(compressorType)
 	undoLogContent := m.encodeUndoLogCtx(parseContext)
 
 	logParse, err := parser.GetCache().Load(parseContext[serializerKey])
@@ -394,7 +400,10 @@ func (m *BaseUndoLogManager) insertUndoLogWithGlobalFinished(ctx context.Context
 		return err
 	}
 
-	rbInfo := logParse.GetDefaultContent()
+	rbInfo, err := compressorType.GetCompressor().Compress(logParse.GetDefaultContent())
+	if err != nil {
+		return err
+	}
 
 	record := undo.UndologRecord{
 		BranchID:     branchID,
@@ -409,6 +418,19 @@ func (m *BaseUndoLogManager) insertUndoLogWithGlobalFinished(ctx context.Context
 		return err
 	}
 	return nil
+}
+
+// compressorTypeInUse is the compressor applied to the rollback info: the configured
+// one when compression is enabled (an unknown spelling means none), none otherwise.
+func (m *BaseUndoLogManager) compressorTypeInUse() compressor.CompressorType {
+	if !undo.UndoConfig.CompressConfig.Enable {
+		return compressor.CompressorNone
+	}
+	compressorType := compressor.CompressorType(undo.UndoConfig.CompressConfig.Type)
+	if _, none := compressorType.GetCompressor().(*compressor.NoneCompressor); none {
+		return compressor.CompressorNone
+	}
+	return compressorType
 }
 
 // DBType
